@@ -187,12 +187,20 @@ def _r18_12(prog: Program, res: Result) -> None:
     if fn is None:
         raise AnalysisError("anchor fixes.move_imports_to_toplevel not found")
     # the loop whose body appends its variable to the removals
+    # collections whose elements are yielded for deletion: `for r in R: yield r, None, ..`
+    deleted = set()
+    for lp in walk_own(fn.node):
+        if isinstance(lp, ast.For) and isinstance(lp.target, ast.Name) and isinstance(lp.iter, ast.Name):
+            for y in ast.walk(lp):
+                if isinstance(y, ast.Yield) and isinstance(y.value, ast.Tuple) and len(y.value.elts) >= 2 and isinstance(y.value.elts[0], ast.Name) \
+                        and y.value.elts[0].id == lp.target.id and isinstance(y.value.elts[1], ast.Constant) and y.value.elts[1].value is None:
+                    deleted.add(lp.iter.id)
     loops = []
     for lp in walk_own(fn.node):
         if isinstance(lp, ast.For) and isinstance(lp.target, ast.Name):
             v = lp.target.id
             if any(isinstance(c, ast.Call) and isinstance(c.func, ast.Attribute) and c.func.attr in ("append", "add") and c.args and isinstance(c.args[0], ast.Name) and c.args[0].id == v
-                   and "remov" in norm(c.func.value).lower() for c in ast.walk(lp)):
+                   and isinstance(c.func.value, ast.Name) and c.func.value.id in deleted for c in ast.walk(lp)):
                 loops.append(lp)
     if not loops:
         raise AnalysisError("move_imports_to_toplevel: loop that schedules the removals not found")
